@@ -1201,6 +1201,10 @@ impl crate::unwind::Probe for AbtExec {
 }
 
 impl Exec for AbtExec {
+    fn flush_before(&self, w: &[&str]) -> bool {
+        // the plain sequential calls run under the process watchdog (fam_abt/seq.rs)
+        matches!(w, ["seq", ..])
+    }
     fn step(&mut self, w: &[&str]) -> StepOut {
         if let Some(so) = self.step_seq(w) {
             return so;
